@@ -106,11 +106,14 @@ def main():
                         pass
                 note(ev="killed", pids=vict)
             killer = threading.Thread(target=kill_later, daemon=True)
+        # task arguments larger than a pipe buffer: the thread feeding the call queue is then in the middle of a write
+        # whenever every worker is busy - also at the moment a worker dies
+        pad = bytes(cfg["arg_bytes"]) if cfg.get("arg_bytes") else None
         if spec and spec["instant"] == "arg_unpickle":
-            tasks = [delayed(c10_tasks.with_arg)(i, tag, c10_tasks.DieOnUnpickle(spec["how"], parent) if i in victims else None, cfg.get("dur", 0.02))
+            tasks = [delayed(c10_tasks.with_arg)(i, tag, c10_tasks.DieOnUnpickle(spec["how"], parent) if i in victims else None, cfg.get("dur", 0.02), pad)
                      for i in range(N)]
         else:
-            tasks = [delayed(c10_tasks.task)(i, tag, spec if i in victims else None, cfg.get("dur", 0.02)) for i in range(nloc)]
+            tasks = [delayed(c10_tasks.task)(i, tag, spec if i in victims else None, cfg.get("dur", 0.02), pad) for i in range(nloc)]
         rec = dict(call=k)
         note(ev="call_start", call=k)
         t0 = time.monotonic()
